@@ -10,6 +10,7 @@ import (
 
 	"github.com/google/uuid"
 	"google.golang.org/protobuf/types/known/durationpb"
+	"google.golang.org/protobuf/types/known/fieldmaskpb"
 	"google.golang.org/protobuf/types/known/timestamppb"
 
 	"go.6river.tech/mmmbbb/actions"
@@ -338,6 +339,67 @@ func c10Scenarios() []c10Scenario {
 					_, err := e.Sub.Seek(ctx, &pubsubpb.SeekRequest{Subscription: sub(0), Target: &pubsubpb.SeekRequest_Time{Time: timestamppb.New(between)}})
 					return err
 				}
+			}
+			return w
+		}},
+		{"seek-acks-as-many-as-it-revives", func(e *rig.Env, v int) *c10World {
+			// a seek to a time between an older, leased (unacknowledged) message and
+			// a newer, acknowledged one: it acknowledges one delivery and revives one
+			// (or two and two) - the net number of outstanding deliveries does not
+			// change, the revived ones are deliverable at once
+			mkTopic(e, T)
+			mkSub(e, &pubsubpb.Subscription{Name: sub(0), Topic: T})
+			n := 1 + (v/2)%2
+			for j := 0; j < n; j++ {
+				must(e.Pub.Publish(e.Ctx, &pubsubpb.PublishRequest{Topic: T, Messages: []*pubsubpb.PubsubMessage{{Data: []byte(`1`)}}}))
+			}
+			if got := pullIDs(e, sub(0), 5); len(got) != n { // leased, not acknowledged
+				panic(fmt.Sprintf("expected %d leased messages, got %d", n, len(got)))
+			}
+			time.Sleep(time.Second)
+			between := time.Now()
+			time.Sleep(time.Second)
+			for j := 0; j < n; j++ {
+				must(e.Pub.Publish(e.Ctx, &pubsubpb.PublishRequest{Topic: T, Messages: []*pubsubpb.PubsubMessage{{Data: []byte(`2`)}}}))
+			}
+			ids := pullIDs(e, sub(0), 5)
+			if len(ids) != n {
+				panic(fmt.Sprintf("expected %d new messages, got %d", n, len(ids)))
+			}
+			must(e.Sub.Acknowledge(e.Ctx, &pubsubpb.AcknowledgeRequest{Subscription: sub(0), AckIds: ids}))
+			if v%2 == 0 {
+				actions.WakeAllInternal()
+			}
+			w := &c10World{e: e, waitSubs: []string{sub(0)}}
+			w.writer = func(ctx context.Context) error {
+				_, err := e.Sub.Seek(ctx, &pubsubpb.SeekRequest{Subscription: sub(0), Target: &pubsubpb.SeekRequest_Time{Time: timestamppb.New(between)}})
+				return err
+			}
+			return w
+		}},
+		{"update-turns-ordering-off", func(e *rig.Env, v int) *c10World {
+			// UpdateSubscription with only enable_message_ordering in the mask: the
+			// message held back behind its leased same-key predecessor becomes
+			// deliverable the moment ordering is switched off
+			mkTopic(e, T)
+			mkSub(e, &pubsubpb.Subscription{Name: sub(0), Topic: T, EnableMessageOrdering: true})
+			n := 2 + (v/2)%2
+			for j := 0; j < n; j++ {
+				must(e.Pub.Publish(e.Ctx, &pubsubpb.PublishRequest{Topic: T, Messages: []*pubsubpb.PubsubMessage{{Data: []byte(fmt.Sprint(j)), OrderingKey: "k"}}}))
+				time.Sleep(time.Millisecond)
+			}
+			if got := pullIDs(e, sub(0), 5); len(got) != 1 {
+				panic(fmt.Sprintf("expected only the head of the key, got %d", len(got)))
+			}
+			if v%2 == 0 {
+				actions.WakeAllInternal()
+			}
+			w := &c10World{e: e, waitSubs: []string{sub(0)}}
+			w.writer = func(ctx context.Context) error {
+				_, err := e.Sub.UpdateSubscription(ctx, &pubsubpb.UpdateSubscriptionRequest{
+					Subscription: &pubsubpb.Subscription{Name: sub(0), EnableMessageOrdering: false},
+					UpdateMask:   &fieldmaskpb.FieldMask{Paths: []string{"enable_message_ordering"}}})
+				return err
 			}
 			return w
 		}},
